@@ -43,6 +43,9 @@ def gen_cases(tier, seed):
         yield {'family': 'same_flow', 'idx': i, 'seed': seed, 'rows': n, 'batch': b, 'modes': [m1, m2]}
     for i in range({'quick': 3, 'thorough': 12}[tier]):
         yield {'family': 'one_resource_two_tables', 'idx': i, 'seed': seed}
+    # ONE Flow object whose first run breaks off mid-stream (a step after the dump fails once) and which is run again
+    for i in range({'quick': 4, 'thorough': 24}[tier]):
+        yield {'family': 'retry_same_flow', 'idx': i, 'seed': seed}
 
 
 def norm_db(v, typ):
@@ -207,7 +210,72 @@ def run_two_tables(case):
                 sample={'config': cfg})
 
 
+def run_retry(case):
+    rng = boot.rng(case['seed'], 'C20', 'retry', case['idx'])
+    d = lab.df()
+    dbfile = os.path.abspath('t.db')
+    engine = 'sqlite:///' + dbfile
+    n = rng.choice([3, 6, 20])
+    fail_at = rng.randrange(n)
+    batch = rng.choice([1, 2, 1000])
+    counters = {'tables_compared': 0, 'flags_compared': 0}
+    cfg = {'rows': n, 'first_attempt_fails_at_row': fail_at, 'batch_size': batch}
+    state = {'attempt': 0, 'armed': True}
+
+    def src(package):
+        package.pkg.add_resource({'name': 'res', 'path': 'res.csv', 'schema': {'fields': [
+            {'name': 'id', 'type': 'integer'}, {'name': 'attempt', 'type': 'integer'}]}})
+        yield package.pkg
+        yield from package
+        state['attempt'] += 1
+        yield ({'id': i, 'attempt': state['attempt']} for i in range(n))
+
+    def failing_once(rows):
+        for i, row in enumerate(rows):
+            if state['armed'] and i == fail_at:
+                state['armed'] = False
+                raise RuntimeError('a later step failed (first attempt only)')
+            yield row
+    with boot.quiet():
+        flow = d.Flow(src, d.dump_to_sql({'tbl': {'resource-name': 'res', 'mode': 'rewrite'}}, engine=engine,
+                                         updated_column='_upd', batch_size=batch), failing_once)
+    viol = []
+    try:
+        with boot.quiet():
+            flow.results(on_error=None)
+        return dict(nontrivial=False, violations=[], counters=counters, cov={'mode_seq': {}, 'config': {}},
+                    inconclusive='the first attempt did not fail')
+    except Exception:
+        pass
+    try:
+        with boot.quiet():
+            results, dp, _ = flow.results(on_error=None)
+    except Exception as e:
+        c = getattr(e, 'cause', e)
+        viol.append({'kind': 'retry_failed', 'mech': 'retry_same_flow/failed', 'config': cfg,
+                     'msg': '%r: the second run of the same Flow failed: %s: %s' % (cfg, type(c).__name__, str(c)[:200])})
+        results = None
+    if results is not None:
+        want = [{'id': i, 'attempt': 2, '_upd': False} for i in range(n)]
+        counters['flags_compared'] += n
+        got = [dict(r, _upd=bool(r.get('_upd'))) for r in results[0]]
+        if got != want:
+            viol.append({'kind': 'downstream_row', 'mech': 'retry_same_flow/downstream_rows', 'config': cfg,
+                         'msg': '%r: rows downstream of dump_to_sql on the second run %r, the rows of that run are %r'
+                         % (cfg, got[:4], want[:4])})
+        tab = _table(dbfile, 'tbl')
+        counters['tables_compared'] += 1
+        if tab is None or sorted((r['id'], r['attempt']) for r in tab) != [(i, 2) for i in range(n)]:
+            viol.append({'kind': 'table_state', 'mech': 'retry_same_flow/table_state', 'config': cfg,
+                         'msg': '%r: after the second run (rewrite) the table holds %r' % (cfg, tab and tab[:4])})
+    return dict(nontrivial=True, violations=viol, counters=counters,
+                cov={'mode_seq': {'retry_same_flow': 1}, 'config': {'retry_same_flow/batch%d' % batch: 1}},
+                sample={'config': cfg})
+
+
 def run_case(case):
+    if case['family'] == 'retry_same_flow':
+        return run_retry(case)
     if case['family'] == 'same_flow':
         return run_same_flow(case)
     if case['family'] == 'one_resource_two_tables':
